@@ -497,7 +497,86 @@ pub fn random_edits(rng: &mut Rng, a2l: &mut A2lFile, rec: &mut Recorder) -> boo
     let n = rng.urange(1, 4);
     for _ in 0..n {
         let module = &mut a2l.project.module[0];
-        match rng.below(9) {
+        match rng.below(11) {
+            9 => {
+                // remove whole lists (and optional children): comments that stood in front of the
+                // removed elements become the last item of their block
+                let mut any = false;
+                macro_rules! strip {
+                    ($($l:ident),*) => {$(
+                        if rng.coin() && !module.$l.is_empty() {
+                            module.$l.retain(|_| false);
+                            any = true;
+                        }
+                    )*};
+                }
+                strip!(
+                    axis_pts, blob, characteristic, compu_method, compu_tab, compu_vtab, compu_vtab_range, frame,
+                    function, group, instance, measurement, record_layout, transformer, typedef_axis, typedef_blob,
+                    typedef_characteristic, typedef_measurement, typedef_structure, unit
+                );
+                if rng.coin() && module.mod_par.is_some() {
+                    module.mod_par = None;
+                    any = true;
+                }
+                if rng.coin() && module.variant_coding.is_some() {
+                    module.variant_coding = None;
+                    any = true;
+                }
+                if any {
+                    rec.bump("edit.strip_lists");
+                    done = true;
+                }
+            }
+            10 => {
+                // remove children inside module-level elements
+                let mut any = false;
+                for m in module.measurement.iter_mut() {
+                    if rng.coin() && (!m.annotation.is_empty() || !m.if_data.is_empty() || m.function_list.is_some()) {
+                        m.annotation.clear();
+                        m.if_data.clear();
+                        m.function_list = None;
+                        any = true;
+                    }
+                }
+                for c in module.characteristic.iter_mut() {
+                    if rng.coin() && (!c.annotation.is_empty() || !c.axis_descr.is_empty() || !c.if_data.is_empty()) {
+                        c.annotation.clear();
+                        c.axis_descr.clear();
+                        c.if_data.clear();
+                        any = true;
+                    }
+                }
+                for f in module.function.iter_mut() {
+                    if rng.coin() {
+                        f.def_characteristic = None;
+                        f.ref_characteristic = None;
+                        f.in_measurement = None;
+                        f.annotation.clear();
+                        any = true;
+                    }
+                }
+                for g in module.group.iter_mut() {
+                    if rng.coin() {
+                        g.ref_characteristic = None;
+                        g.sub_group = None;
+                        g.annotation.clear();
+                        any = true;
+                    }
+                }
+                for r in module.record_layout.iter_mut() {
+                    if rng.coin() {
+                        r.reserved.clear();
+                        r.axis_pts_x = None;
+                        r.fnc_values = None;
+                        any = true;
+                    }
+                }
+                if any {
+                    rec.bump("edit.strip_children");
+                    done = true;
+                }
+            }
             0 => {
                 let mut used: Vec<String> = module
                     .measurement
